@@ -105,6 +105,7 @@ class Interp(AstMixin, Engine):
         self.assumptions_used: set[str] = set()
         self.lock_events: list[tuple] = []
         self.guarded_fields: set[tuple[str, str]] = set()
+        self.alias: dict[int, Any] = {}  # id(live object) -> symbolic stand-in (e.g. the real ISO calendar -> abstract calendar)
         self.guard_violations: list[str] = []
         from .repo_models import install
 
@@ -206,6 +207,8 @@ class Interp(AstMixin, Engine):
         return v
 
     def get_attr(self, obj: Any, name: str, env: Env | None = None) -> Any:
+        if self.alias and id(obj) in self.alias:
+            obj = self.alias[id(obj)]
         if isinstance(obj, SuperProxy):
             return self.super_attr(obj, name)
         if isinstance(obj, (SInt, SBool)):
